@@ -162,23 +162,22 @@ def modelV (v : Value String) : String × String :=
     | none => "ERR")
 
 /-- verdict on the *implementation's* observation of a `V` case (the property itself):
-refused ⇒ the value must contain an opaque variant (`C20_refusal_iff`: that is when the model refuses) or an `ErrorV`;
-otherwise what came back must print exactly like what went in. -/
+refused ⇒ the value must contain a variant that cannot cross (`C20_refusal_iff`: an opaque variant or an `ErrorV`,
+that is when the model refuses); otherwise what came back must print exactly like what went in.  An error value that
+crosses and comes back as `Unit` (the behaviour before `to_ffi_value` refused `ErrorV`) is named `errorv-to-unit`. -/
 def judgeV (v : Value String) (implSer implBack : String) : String :=
   if implSer == "PANIC" || implBack == "PANIC" then "PROPFAIL:panic"
   else if implSer.startsWith "ERR:" then
     match toFfi id v with
     | .error _ => "ok-refused"
-    | .ok _ =>
-      -- `ErrorV` has no faithful representation either (its expression id is dropped): refusing it is allowed
-      if showValue symStr v != showValue symStr v.eraseErrors then "ok-refused" else "PROPFAIL:refused-representable"
+    | .ok _ => "PROPFAIL:refused-representable"
   else
     match toFfi id v with
-    | .error _ => "PROPFAIL:opaque-not-refused"
+    | .error _ =>
+      if showValue symStr v != showValue symStr v.eraseErrors && implBack == showValue symStr v.eraseErrors
+      then "PROPFAIL:errorv-to-unit" else "PROPFAIL:opaque-not-refused"
     | .ok _ =>
-      if implBack == showValue symStr v then "ok"
-      else if implBack == showValue symStr v.eraseErrors then "PROPFAIL:errorv-to-unit"
-      else "PROPFAIL:altered"
+      if implBack == showValue symStr v then "ok" else "PROPFAIL:altered"
 
 def modelM (as : List (Value String × Key)) : String × String :=
   match serializeMacroArgs id as with
@@ -192,16 +191,14 @@ def judgeM (as : List (Value String × Key)) (implSer implBack : String) : Strin
   else if implSer.startsWith "ERR:" then
     match toFfiArgs id as with
     | .error _ => "ok-refused"
-    | .ok _ =>
-      if showArgs as != showArgs (as.map (fun (v, k) => (v.eraseErrors, k))) then "ok-refused"
-      else "PROPFAIL:refused-representable"
+    | .ok _ => "PROPFAIL:refused-representable"
   else
     match toFfiArgs id as with
-    | .error _ => "PROPFAIL:opaque-not-refused"
+    | .error _ =>
+      let erased := showArgs (as.map (fun (v, k) => (v.eraseErrors, k)))
+      if showArgs as != erased && implBack == erased then "PROPFAIL:errorv-to-unit" else "PROPFAIL:opaque-not-refused"
     | .ok _ =>
-      if implBack == showArgs as then "ok"
-      else if implBack == showArgs (as.map (fun (v, k) => (v.eraseErrors, k))) then "PROPFAIL:errorv-to-unit"
-      else "PROPFAIL:altered"
+      if implBack == showArgs as then "ok" else "PROPFAIL:altered"
 
 
 /-! ### raw form (symbols as `#id`) for the direct `Value` codec -/
